@@ -80,7 +80,8 @@ def main():
             os.makedirs(d, exist_ok=True)
             shutil.copy(patch, os.path.join(d, 'patch.diff'))
             shutil.copy(demo, os.path.join(d, 'demo.py'))
-            json.dump(dict(property=a.prop, summary=meta.get('summary'), needs_to_manifest=meta.get('needs'), files=meta.get('files'),
+            base = subprocess.run(['git', '-C', '/repo', 'rev-parse', '--short', 'HEAD'], capture_output=True, text=True).stdout.strip()
+            json.dump(dict(property=a.prop, applies_to_repo_commit=base, summary=meta.get('summary'), needs_to_manifest=meta.get('needs'), files=meta.get('files'),
                            origin='independent sub-agent given only the property text and a scratch worktree',
                            what_i_ran=dict(baseline='all 153 stable baseline tests pass with the patch applied (tools/try_mutant.baseline_ok)',
                                            demo=f'demo.py exit {rc0} on the unpatched tree, exit {rc1} with the patch',
